@@ -75,6 +75,7 @@ INFO = {
  "C16_7": ("get_index_from_selfies in Horner form with `if c is None: break`", "a three-symbol index with two symbols missing at the end of the string", False, ""),
  "C17_7": ("ring-bond token's output index computed after the ring number is appended", "attribute=True and a ring closure that keeps a bond character", False, ""),
  "C18_7": ("modernize_symbol memoises [...expl] atoms keyed on the atom part but stores the prefixed result", "the same expl atom with two different bond prefixes in one process", False, ""),
+ "C03_7": ("_make_ring_bonds reads the closure's bond order through an if/elif chain without a case for '#'", "a triple bond written on a ring-closure label (C#1CCCCCCC1)", False, ""),
 }
 only = sys.argv[1:]
 for label in sorted(os.listdir(os.path.join(HERE, "seeded"))):
